@@ -45,7 +45,7 @@ def sub_dump(src, hashseed, shuffle=None):
     env["PYTHONHASHSEED"] = str(hashseed)
     env["PYTHONDONTWRITEBYTECODE"] = "1"
     p = subprocess.run([common.PY, "-m", "vt.mon.dump"], input=json.dumps({"src": src, "shuffle": shuffle}),
-                       capture_output=True, text=True, timeout=180, env=env, cwd=common.VERIF_ROOT)
+                       capture_output=True, text=True, timeout=600, env=env, cwd=common.VERIF_ROOT)
     for line in reversed(p.stdout.splitlines()):
         if line.startswith("DUMP "):
             return json.loads(line[5:])
@@ -59,7 +59,7 @@ def sub_dump_many(srcs, hashseed, reverse=False):
     env["PYTHONDONTWRITEBYTECODE"] = "1"
     order = list(reversed(srcs)) if reverse else list(srcs)
     p = subprocess.run([common.PY, "-m", "vt.mon.dump"], input=json.dumps({"srcs": order, "shuffle": None}),
-                       capture_output=True, text=True, timeout=900, env=env, cwd=common.VERIF_ROOT)
+                       capture_output=True, text=True, timeout=2400, env=env, cwd=common.VERIF_ROOT)
     for line in reversed(p.stdout.splitlines()):
         if line.startswith("DUMP "):
             res = json.loads(line[5:])
